@@ -581,16 +581,28 @@ func (x *vtx) c17r2() {
 					continue
 				}
 				// cursorX+1: followed by `cursorX > viewportWidth` whose true side calls lf(true)
-				isTest := func(k int) bool {
-					_, ok := g.Ins[k].(*ssa.If)
-					if !ok {
-						return false
+				// the test cursorX > viewportWidth, whichever way it is written
+				// (`!(cursorX <= viewportWidth)` puts it on the false branch);
+				// wrapSide is the branch on which the cursor is past the last column
+				wrapSide := func(k int) int {
+					if _, ok := g.Ins[k].(*ssa.If); !ok {
+						return -1
 					}
-					f, ok := condFact(g.Cond(k), true)
-					return ok && cmpMatch(f, token.GTR, x.fld(x.cursorX), x.fld(x.viewportWidth))
+					for side, sense := range []bool{true, false} {
+						if f, ok := condFact(g.Cond(k), sense); ok && cmpMatch(f, token.GTR, x.fld(x.cursorX), x.fld(x.viewportWidth)) {
+							return side
+						}
+					}
+					return -1
 				}
+				isTest := func(k int) bool { return wrapSide(k) >= 0 }
 				ret := isRet(g)
-				if ok, pth := g.MustPassAfter(n, isTest, ret); !ok {
+				// (a flag that is tested twice has the same outcome both times)
+				okAfter := g.holdsInScenarios(n, nil, func(_ []Fact, cut map[Edge]bool) bool {
+					return g.Path(g.Succ[n], cut, isTest, func(j int) bool { return !isTest(j) && ret(j) }) == nil
+				})
+				if !okAfter {
+					_, pth := g.MustPassAfter(n, isTest, ret)
 					c.fail("C17.R2", key, "cursorX is advanced and the function can return without testing cursorX > viewportWidth", g.where(pth, 8)...)
 					continue
 				}
@@ -606,7 +618,7 @@ func (x *vtx) c17r2() {
 						b, ok := constBool(g.callArgs(j)[1])
 						return ok && b
 					}
-					if p := g.Path([]int{g.Succ[k][0]}, nil, isWrap, func(j int) bool { return !isWrap(j) && ret(j) }); p != nil {
+					if p := g.Path([]int{g.Succ[k][wrapSide(k)]}, nil, isWrap, func(j int) bool { return !isWrap(j) && ret(j) }); p != nil {
 						bad = "past the last column the function returns without lf(true): the cursor stays outside the viewport"
 					}
 				}
